@@ -198,7 +198,8 @@ def gen_nearmiss(rng):
                            "0x_", "0_x1", "+_1", "-,1", ".,5", "._5", "+.,5", "-01", "+007", "0,1", "00_1", "NaN,", "Na,N",
                            "Inf_", "I_nf", "InfINITY", "1e+_5", "1+_2j", "1+Na,Nj", "1e5e5", "0e", "00e1", "0x1p3", ".j",
                            "-.5j", "-.e1", "1.j", "1_.j", "infj", "nanj", "1+infj", "-j", "+j", "1+j", "1e999", "-1e999j",
-                           "a..b", ".a.", "a.b.c", "..", "1.2.a", "a.-1", "a.+", "a.1e5", "j_", "J,", "j,_", "J__", "+j_", "-J,"]), "fixed"
+                           "a..b", ".a.", "a.b.c", "..", "1.2.a", "a.-1", "a.+", "a.1e5", "j_", "J,", "j,_", "J__", "+j_", "-J,", "In_f", "I_nf", "I,nf", "-In_f", "+I__nf",
+                           "In,_f", "N_aN", "Na_N", "Na,N", "-N_aN", "N__a,N", "1+In_fj", "In_f+1j", "N_aNj", "a.In_f"]), "fixed"
     if r < 0.85:
         t = rng.choice(UNI)
         q = rng.random()
@@ -365,7 +366,8 @@ def run(chk):
         "numeric literal (optionally signed, decimal integers with any leading zeros), NaN / Inf with optional sign, or a "
         "complex text <real>[+-]<imag>j built from those; separators may follow a digit, '.', e, j or a radix letter",
         "a separator before the first digit makes the text a non-number (the documented prohibition); other unlisted "
-        "separator placements (after a sign inside the literal, inside NaN/Inf) are counted as unspecified and not judged",
+        "separator placements (after a sign inside the literal, after a digit-free NaN/Inf) are counted as unspecified and not "
+        "judged; a separator inside the word NaN or Inf makes the text an ordinary identifier, not the documented literal",
         "texts accepted only because CPython's constructors take Unicode digits / whitespace are one known finding",
         "integer literals beyond CPython's 4300-digit limit are not generated (Python itself refuses them)",
     ]
@@ -375,9 +377,9 @@ def run(chk):
     chk.prove("Props/C22.v", ["Props/C22.vo", "Lit/Extract.vo"], [lit_tables.translate])
     try:
         binary = lc.build_driver()
-    except Exception as e:
-        chk.obligation("extracted model builds", False, str(e))
-        return
+    except Exception as e:   # a broken tie must not stop the oracle on the real code
+        chk.obligation("extracted model builds", False, str(e)[-1500:])
+        binary = None
     thorough = chk.tier == "thorough"
     rng = chk.rng
     try:
@@ -387,10 +389,18 @@ def run(chk):
         chk.fail("hy-core-unreadable", {"text": "import hy"}, traceback.format_exc()[-1500:], "hy imports",
                  "PYTHONPATH=%s /venv/bin/python -c 'import hy'" % vlib.REPO)
         return
-    validate_cpython_grammars(chk, rng, 150000 if thorough else 12000, binary)
+    if binary:
+        validate_cpython_grammars(chk, rng, 150000 if thorough else 12000, binary)
+    else:
+        chk.count("model-dependent parts skipped (no extracted model)")
 
     n = 400000 if thorough else 24000
     cases = []
+    # every placement of one separator inside or after the documented special spellings
+    for w in ["NaN", "Inf", "-Inf", "+Inf", "-NaN", "+NaN"]:
+        for i in range(1, len(w) + 1):
+            for sp in "_,":
+                cases.append((w[:i] + sp + w[i:], "special-one-separator"))
     for _ in range(n):
         q = rng.random()
         if q < 0.30:
@@ -422,13 +432,13 @@ def run(chk):
         tb = nc.utable(t)
         lines.append(("ident", tb, "1", lc.arg(t)))
         lines.append(("ident", tb, "0", lc.arg(t)))
-    res = lc.run_driver(binary, lines)
+    res = lc.run_driver(binary, lines) if binary else None
     for i, (t, kind) in enumerate(cases):
         chk.count("gen:" + kind)
-        m_rd = nc.decode_ident(res[2 * i], t)
-        m_ct = nc.decode_ident(res[2 * i + 1], t)
         got_ct = nc.observe_as_identifier(hy, t)
-        if got_ct != m_ct:
+        m_rd = nc.decode_ident(res[2 * i], t) if res else None
+        m_ct = nc.decode_ident(res[2 * i + 1], t) if res else None
+        if res and got_ct != m_ct:
             chk.disagree("Lit.Numeric.as_identifier(reader=None) vs hy.reader.hy_reader.as_identifier", t, repr(m_ct), repr(got_ct))
         readable = bool(t) and not (set(t) & NONID) and t[0] not in ":#"
         got = None
@@ -440,7 +450,7 @@ def run(chk):
                 got = o[1]
             else:
                 got = ("unexpected", repr(o)[:80])
-            if got != m_rd:
+            if res and got != m_rd:
                 chk.disagree("Lit.Numeric.as_identifier(reader) vs hy.read_many", t, repr(m_rd), repr(got))
         obs = got if readable else got_ct
         chk.case(t, nontrivial=obs[0] in ("int", "float", "complex"),
